@@ -34,6 +34,8 @@ type scenario struct {
 	name  string
 	pre   []string // installed beforehand, unmonitored (tweaked variants: a replaced target differs in bytes)
 	steps []step
+	// seeded: input order and pre-existing subset were drawn from the seed
+	seeded bool
 }
 
 func expand(inputs []string) []string {
@@ -104,6 +106,54 @@ func scenarios(t *vk.T) []scenario {
 			}
 		}
 		add(fmt.Sprintf("installfonts[%s]/pre=%s", plus(p), plus(pre)), pre, one("installfonts", p...))
+		out[len(out)-1].seeded = true
+	}
+	// random installation histories: 2-4 calls over all routes into one directory, random pre-existing fonts
+	for k := 0; k < 16; k++ {
+		r := t.RNGi("c07-history", k)
+		var pre []string
+		for _, x := range []string{"R", "A", "B", "C", "D", "E"} {
+			if r.IntN(3) == 0 {
+				pre = append(pre, x)
+			}
+		}
+		var steps []step
+		var label []string
+		for n := 2 + r.IntN(3); len(steps) < n; {
+			var st step
+			switch r.IntN(6) {
+			case 0:
+				st = one("truetypefont", []string{"R", "A", "A2", "B", "C", "D", "E"}[r.IntN(7)])
+			case 1:
+				st = one("frombytes", []string{"R", "A", "A2", "B", "C", "D", "E"}[r.IntN(7)])
+			case 2:
+				st = one("ttc", []string{"T", "U", "V"}[r.IntN(3)])
+			default:
+				// a batch of 1-3 inputs without two sources of one PostScript name
+				names := map[string]bool{}
+				pool := []string{"R", "A", "A2", "B", "C", "D", "E", "T", "U", "V"}
+				r.Shuffle(len(pool), func(i, j int) { pool[i], pool[j] = pool[j], pool[i] })
+				var in []string
+				for _, x := range pool {
+					clash := false
+					for _, y := range expand([]string{x}) {
+						clash = clash || names[y]
+					}
+					if clash || len(in) >= 1+k%3 {
+						continue
+					}
+					for _, y := range expand([]string{x}) {
+						names[y] = true
+					}
+					in = append(in, x)
+				}
+				st = one("installfonts", in...)
+			}
+			steps = append(steps, st)
+			label = append(label, fmt.Sprintf("%s[%s]", st.route, plus(st.inputs)))
+		}
+		add(fmt.Sprintf("history/%s/pre=%s", strings.Join(label, ">"), plus(pre)), pre, steps...)
+		out[len(out)-1].seeded = true
 	}
 	// B. the single-font routes of package font
 	for _, r := range []string{"truetypefont", "frombytes", "frombytesquiet"} {
@@ -196,6 +246,13 @@ func thorough(t *vk.T, mat *fontcase.Material, ctl *control) {
 	t.Assume("harsh model variant (counted under observed harsh_model/*, never judged: the property text names the stated model only): any SUBSET of a directory's unflushed operations may be on disk, a rename over an existing name is unlink + link, and the halves of a rename between two directories settle only once both directories were fsynced after it")
 	scs := scenarios(t)
 	t.Extra("thorough_scenarios", len(scs))
+	var chosen []string
+	for _, sc := range scs {
+		if sc.seeded {
+			chosen = append(chosen, sc.name)
+		}
+	}
+	t.Extra("seed_chosen_scenarios", chosen)
 	for _, sc := range scs {
 		runScenario(t, mat, sc, ctl)
 	}
